@@ -209,6 +209,17 @@ pub fn generate(sink: &mut Sink, seed: u64, thorough: bool) {
                 if !any_err_new && !during_drop && !interrupted {
                     sink.fail("C16", "device/fault-swallowed", &format!("{line} ## fault_at={k}"), &format!("device fault at operation {k}: no library call returned an error ({:?})", run.results));
                 }
+                // the call IN PROGRESS when the device failed must be the one that reports it (up to the fault
+                // both runs issue the same device operations, so the ideal run tells which call that was)
+                if !interrupted && k >= ideal.ops_new {
+                    if let Some(j) = ideal.ops_after.iter().position(|&n| n > k) {
+                        if let Some(r) = run.results.get(j) {
+                            if r != "err" && r != "panic" {
+                                sink.fail("C16", "device/fault-not-reported-by-call-in-progress", &format!("{line} ## fault_at={k}"), &format!("the device failed at operation {k}, during call {j} of the program, which returned {r:?}; the error surfaced later or not at all ({:?})", run.results));
+                            }
+                        }
+                    }
+                }
                 // finalize ok => complete file
                 let fin_ok = matches!(prog.stmts.last(), Some(Stmt::Fin)) && run.results.len() == ideal.results.len() && run.results.last().map(|s| s == "ok").unwrap_or(false) && ideal.results.last().map(|s| s == "ok").unwrap_or(false);
                 if fin_ok && !during_drop {
@@ -485,6 +496,62 @@ pub fn generate(sink: &mut Sink, seed: u64, thorough: bool) {
         }
         sink.stat("crash_program");
         sink.stat_n("crash_writes", writes.len() as u64);
+    }
+    // ---------------------------------------------------------------- 3b. a device that already holds an older complete file
+    // (a reused buffer, a file opened without truncation): either the writer refuses it and leaves it alone, or every
+    // image of the new session from before the end of its finalize is rejected — the OLD file must never be
+    // presented as the result of the new session
+    for _ in 0..(if thorough { 30 } else { 6 }) {
+        let mk = |rng: &mut Rng| {
+            let mut g = Gen { rng, exts: vec![], n: 0 };
+            g.program(5)
+        };
+        let old_prog = mk(&mut rng);
+        let old = execute(&old_prog, &SimDev::new(vec![]));
+        if old.panicked || old.results.last().map(|s| s != "ok").unwrap_or(true) || !matches!(old_prog.stmts.last(), Some(Stmt::Fin)) {
+            continue;
+        }
+        let prog = mk(&mut rng);
+        let dev = SimDev::new(old.file.clone());
+        dev.set_record(true);
+        let run = execute(&prog, &dev);
+        let line = format!("{} ## on_device_holding={}", prog.case_line(&lv), hex(&old.file[..old.file.len().min(2048)]));
+        sink.oracle_evals += 1;
+        sink.stat("preloaded_device_session");
+        if run.results.first().map(|r| r == "NEWERR").unwrap_or(false) {
+            if run.file != old.file {
+                sink.fail("C15", "crash/refused-session-changed-device", &line, "E57Writer::new refused a device that already holds a file, but changed it");
+            }
+            continue;
+        }
+        if run.panicked {
+            continue;
+        }
+        let fin_ok = matches!(prog.stmts.last(), Some(Stmt::Fin)) && run.results.last().map(|s| s == "ok").unwrap_or(false);
+        let full = if fin_ok { guarded(|| reader_digest(SimDev::new(run.file.clone()), 1000)).ok().and_then(|r| r.ok()) } else { None };
+        let writes: Vec<(u64, Vec<u8>)> = dev.log().into_iter().filter_map(|e| if let Ev::Write(o, b) = e { Some((o, b)) } else { None }).collect();
+        let mut image = old.file.clone();
+        for (i, (off, bytes)) in writes.iter().enumerate().chain(std::iter::once((writes.len(), &(0u64, vec![])))) {
+            for c in cuts.iter().filter(|c| **c <= bytes.len()) {
+                let mut img = image.clone();
+                let o = *off as usize;
+                if img.len() < o + c {
+                    img.resize(o + c, 0);
+                }
+                img[o..o + c].copy_from_slice(&bytes[..*c]);
+                if let Ok(Ok(dg)) = guarded(|| reader_digest(SimDev::new(img.clone()), 1000)) {
+                    if full.as_deref() != Some(dg.as_str()) {
+                        sink.fail("C15", "crash/older-file-presented", &format!("{line} ## crash_after_write={i} cut={c}"), &format!("the writer accepted a device that already held a complete file; when writing stops after {i} device writes (+{c} bytes) the reader accepts the image and reports content that is not the completed file's (the older file shows through)"));
+                        break;
+                    }
+                }
+            }
+            let o = *off as usize;
+            if image.len() < o + bytes.len() {
+                image.resize(o + bytes.len(), 0);
+            }
+            image[o..o + bytes.len()].copy_from_slice(bytes);
+        }
     }
     // ---------------------------------------------------------------- 4. abandoned sessions (C15)
     // a program that never reaches a successful top-level finalize (the writer is dropped instead)
